@@ -22,7 +22,7 @@ func init() {
 		Rule: "E1 over (schema x data tree): (1) every schema forest up to the node bound generated from the grammar leaf(plain|mandatory|default) / leaf-list(min,max variants) / container(np|presence) / list(min,max variants; one unique, one unique over two leaves, two unique statements; over direct and descendant leaves) / choice(plain|mandatory|default case) with shorthand and explicit cases, siblings as multisets, x every data tree up to the data bound; (2) 9 hand-written deeper schemas from a grammar with nested non-presence and presence containers, mandatory leaves, leaves with defaults, lists with min/max-elements and unique sets over direct and descendant leaves, leaf-lists with min/max, choices (mandatory, default case, choice nested in a case), no must/when/leafref; data trees: every combination of the instantiable nodes (lists with 0-3 entries, leaf-lists with 0-3 values, unique leaves over a 2-value alphabet, default leaves explicit or absent) up to the node bound. " +
 			"schema.ValidateSchema's error verdict and error count are compared with a reference that lists every complaint (missing mandatory node looking through non-presence containers and active cases, min/max violation, unique violation); the walk of schema.AddDefaults is compared with the reference decoration, explicit data must be unchanged and decorating the decorated tree must change nothing. Non-trivial = the tree has >= 2 nodes or the reference has a complaint or adds a default.",
 		Bound: map[string]string{
-			"quick":    "all generated schemas of <= 3 nodes x all data trees of <= 5 nodes; 9 hand-written schemas x all data trees of <= 7 nodes",
+			"quick":    "all generated schemas of <= 3 nodes x all data trees of <= 5 nodes, all generated schemas of 4 nodes x all data trees of <= 3 nodes; 9 hand-written schemas x all data trees of <= 7 nodes",
 			"thorough": "all generated schemas of <= 4 nodes x all data trees of <= 6 nodes; 9 hand-written schemas x all data trees of <= 9 nodes",
 		},
 		Assumptions: []string{"schema-side must/when evaluation is outside this harness (contexts built by NewCtxFromMach have no path stacks)"},
@@ -268,15 +268,34 @@ func kinds(want []string) string {
 }
 
 func runGenerated(c *engine.Ctx) {
-	sb, db := 3, 5
-	if !c.Quick() {
-		sb, db = 4, 6
+	if c.Quick() {
+		runGeneratedBound(c, 3, 5, 0)
+		runGeneratedBound(c, 4, 3, 4) // only the schemas with exactly 4 nodes
+		return
 	}
+	runGeneratedBound(c, 4, 6, 0)
+}
+
+func schemaCost(kids []*S) int {
+	n := 0
+	for _, k := range kids {
+		if !(k.Kind == "leaf" && k.Name == "k") && k.Kind != "case" {
+			n++
+		}
+		n += schemaCost(k.Kids)
+	}
+	return n
+}
+
+func runGeneratedBound(c *engine.Ctx, sb, db, onlyCost int) {
 	all := genSchemas(sb)
 	c.Note(fmt.Sprintf("%d generated schemas of <= %d nodes, data trees of <= %d nodes", len(all), sb, db))
 	for gi, kids := range all {
 		if c.Expired() {
 			return
+		}
+		if onlyCost > 0 && schemaCost(kids) != onlyCost {
+			continue
 		}
 		if !c.Owns(fmt.Sprintf("gen:%d", gi)) {
 			continue
@@ -289,7 +308,7 @@ func runGenerated(c *engine.Ctx) {
 		c.Add("schemas", 1)
 		trees := combos(dataNodes(kids), db)
 		for ti, t := range trees {
-			id := fmt.Sprintf("g%d:%d", gi, ti)
+			id := fmt.Sprintf("g%d/%d:%d:%d", sb, db, gi, ti)
 			if !c.Case(id) {
 				continue
 			}
